@@ -453,6 +453,24 @@ def case_input(chunk, case):
     raise Infra("case %s not found in %s" % (case, chunk))
 
 
+def subsample(path, max_cases, seed, run=None):
+    """Seeded uniform subsample of a cases file (the TLC run itself stays exhaustive)."""
+    import random
+    n = sum(1 for _ in open(path))
+    if n <= max_cases:
+        return path
+    rnd = random.Random(seed)
+    keep = set(rnd.sample(range(n), max_cases))
+    out = path + ".sub"
+    with open(path) as f, open(out, "w") as g:
+        for i, line in enumerate(f):
+            if i in keep:
+                g.write(line)
+    if run is not None:
+        run.cov.setdefault("replay_subsampled", []).append(dict(emitted_by_tlc=n, replayed=max_cases))
+    return out
+
+
 def main_wrap(fn):
     try:
         sys.exit(fn())
